@@ -271,7 +271,109 @@ class History(Suite):
         return case["tree"]["n"] >= 3 and len(case["ops"]) >= 5
 
 
-SUITES = [History()]
+class Collections(Suite):
+    """collections of compartments (`Compartments`): of a tree, of one branch, gathered over several branches, and of
+    detached copies — the collection-level accessors report, row by row, the two nodes of each member"""
+    name = "c09.compartments"
+
+    def cases(self, rng, tier, widen):
+        out = []
+        big = tier == "thorough" or widen
+        k = 0
+        for n in [2, 3, 5, 8, 13] + ([30, 80] if big else []):
+            for _ in range(3 if not big else 8):
+                shape = gen.pick_shape(rng, k); k += 1
+                pids = gen.renumber_root0(rng, gen.parents_sorted(rng, n, shape))
+                nn = len(pids)
+                pts = set()
+                while len(pts) < nn:
+                    pts.add(tuple(float(rng.randint(-30, 30)) for _ in range(3)))
+                pts = list(pts); rng.shuffle(pts)
+                t = {"n": nn, "pids": pids, "types": [1] + [rng.choice([2, 3, 4]) for _ in range(nn - 1)],
+                     "xyz": [list(q) for q in pts], "r": [float(rng.randint(1, 9)) for _ in range(nn)]}
+                for how in ("tree", "branch", "gathered", "extended", "detached"):
+                    out.append({"class": how, "tree": t, "how": how, "pick": rng.random()})
+        return out
+
+    def run(self, case):
+        from swcgeom.core.compartment import Segments
+
+        t = gen.make_tree(case["tree"])
+        brs = t.get_branches()
+        how = case["how"]
+        if how == "tree":
+            segs = t.get_segments()
+        elif how == "branch":
+            if not brs:
+                return {"skip": True}
+            segs = brs[int(case["pick"] * len(brs))].get_segments()
+        elif how == "gathered":
+            segs = Segments(s for b in brs for s in b.get_segments())
+        elif how == "extended":
+            if not brs:
+                return {"skip": True}
+            segs = brs[0].get_segments()
+            for b in brs[1:]:
+                segs.extend(b.get_segments())
+        else:
+            segs = Segments(s.detach() for s in t.get_segments())
+        members = [[int(v) for v in s.get_ndata("id")] for s in segs]
+        res = {"members": members, "n": len(segs)}
+        if len(segs):
+            res["id"] = np.asarray(segs.id()).astype(int).tolist()
+            res["pid"] = np.asarray(segs.pid()).astype(int).tolist()
+            res["type"] = np.asarray(segs.type()).astype(int).tolist()
+            res["r"] = np.asarray(segs.r()).astype(float).tolist()
+            res["xyz"] = np.asarray(segs.xyz()).astype(float).tolist()
+            res["xyzr"] = np.asarray(segs.xyzr()).astype(float).tolist()
+            res["each_xyz"] = [np.asarray(s.xyz()).astype(float).tolist() for s in segs]
+        return res
+
+    def oracle(self, case, res):
+        t = case["tree"]
+        if "exc" in res:
+            return [("compartments-raise", f"{case['how']}: {res['exc']}: {res.get('msg')}")]
+        if res.get("skip") or res["n"] == 0:
+            return []
+        out = []
+        pids = t["pids"]
+        detached = case["how"] == "detached"
+        if detached:
+            # a detached copy numbers its two nodes 0, 1 (documented for paths): identify the member by its positions
+            at = {tuple(q): i for i, q in enumerate(t["xyz"])}
+            try:
+                res = dict(res); res["members"] = [[at[tuple(e[0])], at[tuple(e[1])]] for e in res["each_xyz"]]
+            except KeyError:
+                return [("member-xyz", "detached: a detached segment is not at the positions of two nodes of the tree")]
+        for a, b in res["members"]:
+            if pids[b] != a:
+                return [("segment-not-an-edge", f"{case['how']}: member ({a}, {b}) is not a (parent, child) pair of pids={pids}")]
+        if case["how"] in ("tree", "detached", "gathered", "extended"):
+            want = sorted((pids[i], i) for i in range(t["n"]) if pids[i] >= 0)
+            if sorted(map(tuple, res["members"])) != want:
+                out.append(("segments-not-all-edges", f"{case['how']}: members {res['members'][:6]}… are not exactly the edges of pids={pids}"))
+        # the collection's columns, row by row = the two nodes of each member
+        exp = {"id": [[a, b] for a, b in res["members"]], "pid": [[pids[a], pids[b]] for a, b in res["members"]],
+               "type": [[t["types"][a], t["types"][b]] for a, b in res["members"]], "r": [[t["r"][a], t["r"][b]] for a, b in res["members"]],
+               "xyz": [[t["xyz"][a], t["xyz"][b]] for a, b in res["members"]],
+               "xyzr": [[t["xyz"][a] + [t["r"][a]], t["xyz"][b] + [t["r"][b]]] for a, b in res["members"]]}
+        for c, w in exp.items():
+            if detached and c in ("id", "pid"):
+                continue
+            if res[c] != w:
+                k = next(i for i in range(len(w)) if i >= len(res[c]) or res[c][i] != w[i])
+                out.append((f"collection-{c}", f"{case['how']}: row {k} of Compartments.{c}() is {res[c][k] if k < len(res[c]) else None}, its member is "
+                                               f"{tuple(res['members'][k])} with {c} {w[k]} (pids={pids})"))
+                break
+        if res["each_xyz"] != exp["xyz"]:
+            out.append(("member-xyz", f"{case['how']}: a member's own xyz() differs from its nodes' positions"))
+        return out[:3]
+
+    def nontrivial(self, case, res):
+        return not res.get("skip") and res.get("n", 0) >= 2
+
+
+SUITES = [History(), Collections()]
 TECHNIQUE = ("Lean 4 theorems about a heap model of owners, arrays and index-holding views (a view's read is the owner's current content at its indices after any "
              "history; a tree-node write lands in the owner and is seen by every view; copy / detach allocate fresh arrays, so for every later interleaving of "
              "writes neither side sees the other's; segment construction) + differential correspondence on random operation histories + np.shares_memory oracle")
